@@ -179,6 +179,7 @@ func runC06() {
 	if run.Thorough() {
 		n = 60000
 	}
+	n = scaled(n)
 	for i := 0; i < n; i++ {
 		c06Scenario(rnd.Fork())
 	}
